@@ -34,7 +34,7 @@ MANIFEST = dict(
          "matrices > 400, complex/non-BSE non-symmetric input, size_initial_guess < size_update (undefined in the code), "
          "reuse of one solver object, multi-threaded products.")
 
-SYMM_FAMS = ["dd", "dd", "dd", "ddflat", "rand", "neardeg", "block", "exactdeg"]
+SYMM_FAMS = ["dd", "dd", "dd", "ddweak", "ddflat", "rand", "neardeg", "block", "exactdeg"]
 HAM_FAMS = ["bse", "bse", "bsehard"]
 PROMISED_KEYS = ("promised-success", "promised-lowest")
 
@@ -164,7 +164,8 @@ def run(ctx):
     ctx.assumptions += [
         "numeric observations come from Eigen's dense solvers in the driver (double precision); tolerances: residual "
         "<= 1.01*tol + 64*eps*|A|_F, | |v|-1 | <= 1e-9, |v_i.v_j| <= 1e-8, |lambda_i-mu_i| <= 1.01*kappa*sqrt(neigen)*tol",
-        "the promise 'success within the iteration limit' is read for iter_max >= 50 (the default)",
+        "the promise 'success within the iteration limit' is read for iter_max >= 50 (the default) and for tolerances "
+        "attainable in double precision (rounding floor 64*eps*|A|_F <= tol/10)",
         "a fresh DavidsonSolver object per solve (as all callers in xtp do); OpenMP/Eigen threads = 1",
         "HAM mode: orthogonality and ascending order are not asserted (eigenvectors of a non-symmetric matrix are not "
         "orthogonal; the code orders by harmonic Ritz value), values are compared as a sorted set"]
@@ -252,7 +253,7 @@ def run(ctx):
             worst["normq_success"] = max(worst["normq_success"], max(e["normq"]))
             if b["mode"] == "SYMM":
                 worst["orthq_success_symm"] = max(worst["orthq_success_symm"], e["orthq"])
-            if b["fam"] in ("dd", "ddflat", "bse"):
+            if b["fam"] in ("dd", "ddweak", "ddflat", "bse"):
                 worst["lowq_promised"] = max(worst["lowq_promised"], max(e["lowq"]))
             elif e["denseok"] and max(e["lowq"]) > 1010:
                 stats["success_with_non_lowest_roots:%s (admitted, not asserted)" % b["fam"]] += 1
